@@ -174,7 +174,7 @@ def cache_files():
     if os.path.isdir(d):
         for n in sorted(os.listdir(d)):
             with open(os.path.join(d, n), "rb") as fh:
-                out[n] = hashlib.sha1(fh.read()).hexdigest()
+                out[n] = (hashlib.sha1(fh.read()).hexdigest(), os.stat(os.path.join(d, n)).st_mtime_ns)
     return out
 
 
@@ -257,14 +257,21 @@ def run_schedule(graph, urls, program, target, cache, choices, ref):
     """One run. Returns (scheduler, results, failures)."""
     reset_tables()
     clear_cache()
-    if cache in ("warm", "stale"):
+    gone = None
+    if cache in ("warm", "stale", "stale_gone"):
         for u in urls.values():
             try:
                 term.cache_load(u)
             except Exception:
                 pass
-        if cache == "stale":
+        if cache in ("stale", "stale_gone"):
             age_cache()
+        if cache == "stale_gone":
+            # the leaf can no longer be fetched; only an outdated cache file is left
+            gone = urls["D"][len("file://"):]
+            with open(gone, "rb") as fh:
+                gone_data = fh.read()
+            os.remove(gone)
     cache_before = cache_files()
     s = SCH.Scheduler(choices)
     shim = SCH.Shim(s)
@@ -327,6 +334,9 @@ def run_schedule(graph, urls, program, target, cache, choices, ref):
         term.threading, templ.threading = old[0], old[1]
         term.terminologies.__class__ = old[2]
         restore_locks(saved_locks)
+        if gone is not None:
+            with open(gone, "wb") as fh:
+                fh.write(gone_data)
     fails = []
     loc = dict(graph=graph, program=[list(p) for p in program], target=target, cache=cache)
     if harness_timeout:
@@ -358,6 +368,10 @@ def run_schedule(graph, urls, program, target, cache, choices, ref):
             if r is None:
                 continue
             broken_include = graph in ("missing_leaf", "unparsable_leaf") and name in ("A", "B")
+            if cache == "stale_gone":
+                # nothing that needs D can be fetched any more
+                r = ("none",)
+                broken_include = name != "D"
             if res is None:
                 if r[0] == "doc" and not broken_include:
                     fails.append(failure("load.none", "load(%s) returned None although the resource loads "
@@ -385,8 +399,13 @@ def run_schedule(graph, urls, program, target, cache, choices, ref):
             if fn and fn[0] not in cache_before:
                 fails.append(failure("load.cache_created", "a failed fetch of %s created the cache file %s"
                                      % (name, fn[0]), **loc))
+    if cache == "stale_gone":
+        for n, h in cache_before.items():
+            if n.endswith("D.xml") and after.get(n) != h:
+                fails.append(failure("load.cache_touched_by_failed_fetch", "the failed fetch of the leaf changed "
+                                     "its outdated cache file %s (content or modification time)" % n, **loc))
     for n, h in cache_before.items():
-        if n in after and after[n] != h and cache == "warm":
+        if n in after and after[n][0] != h[0] and cache == "warm":
             fails.append(failure("load.cache_overwritten", "cache file %s was rewritten although it was fresh"
                                  % n, **loc))
     return s, results, fails
@@ -410,8 +429,12 @@ def combos(tier):
             for target in ("terminology", "templates"):
                 if target == "templates" and pname in ("P6", "P7", "P8"):
                     continue
-                for cache in ("empty", "warm", "stale"):
-                    if cache != "empty" and pname not in ("P1", "P2", "P4"):
+                for cache in ("empty", "warm", "stale", "stale_gone"):
+                    if cache != "empty" and pname not in ("P1", "P2", "P4", "P5"):
+                        continue
+                    if cache != "empty" and graph not in ("single", "chain") and tier == "quick":
+                        continue
+                    if cache == "stale_gone" and graph not in ("single", "chain"):
                         continue
                     out.append((graph, pname, prog, target, cache))
     return out
@@ -480,7 +503,7 @@ def random_body(case):
 
 def plan(tier):
     cs = combos(tier)
-    bound, limit = (2, 400) if tier == "quick" else (3, 20000)
+    bound, limit = (2, 500) if tier == "quick" else (3, 30000)
     shards = []
     nsh = 14
     for i in range(nsh):
